@@ -22,6 +22,7 @@ import Golib.Proof.C05Rebuild
 import Golib.Proof.C05Driver
 import Golib.Proof.C05PtrAll
 import Golib.Model.C06
+import Golib.Proof.C06Trans
 
 namespace Golib.C06
 open Golib Golib.C05
@@ -295,6 +296,47 @@ theorem c06_pointer_refines (pt : PTrie) (t : Trie) (lbl : List Label) (h : Rep 
     cases mergeScopesWith true scopes <;> rfl
   · simp only [replaceWithMask, replaceWithMaskWith, hf, mergeScopes]
     cases mergeScopesWith true scopes <;> rfl
+
+/-! ### the regenerated tie (`go2lean`, `Golib/Gen/TransC06.lean`, rewritten from the tree on every run) -/
+
+/-- TIE: `(*Trie).mergeScopes` as translated from the source on this run IS the model's
+`mergeScopes` (the definition `c06_merge_spec`, `c06_replace_spec`, `c06_mask_spec`, … are
+about), for EVERY scope list: same resulting list (`toM`/`ofM` convert between the generated
+`scope` structure and the model's `Scope`, same two `Int` fields); the generated function never
+panics; the model's `none` is exactly "the fuel `2·len + 1` ran out".  Reading of the Go
+signature: the receiver is never mentioned and is dropped; `sp *[]scope` is read once and stored
+once as the last statement, hence an in-out list. -/
+theorem c06_trans_mergeScopes (sp : List GScope) :
+    Golib.Gen.Trans.C06.Trie_mergeScopes sp =
+      match mergeScopes (sp.map toM) with
+      | some r => .ok (r.map ofM)
+      | none => .fuel :=
+  trans_mergeScopes sp
+
+example : Golib.Gen.Trans.C06.Trie_mergeScopes [⟨0, 1⟩, ⟨2, 3⟩, ⟨0, 5⟩] = .ok [⟨0, 5⟩] := by decide +kernel
+
+/-- The property clause DIRECTLY on the generated definition: on what `find` delivers (sorted by
+end position, non-empty scopes) the translated `mergeScopes` returns normally — no panic, the
+fuel does not run out — and its result is increasing and pairwise disjoint, made of non-empty
+scopes, and covers exactly the union of the input intervals (pointwise and scope-wise). -/
+theorem c06_trans_mergeScopes_spec (sp : List GScope) (hs : SortedByStop (sp.map toM))
+    (hne : AllNonEmpty (sp.map toM)) :
+    ∃ r, Golib.Gen.Trans.C06.Trie_mergeScopes sp = .ok r ∧
+      Disjoint (r.map toM) ∧ AllNonEmpty (r.map toM) ∧
+      (∀ x, covered (r.map toM) x ↔ covered (sp.map toM) x) ∧
+      (∀ o ∈ sp.map toM, ∃ s ∈ r.map toM, s.start ≤ o.start ∧ o.stop ≤ s.stop) ∧
+      (∀ s ∈ r.map toM, ∃ o ∈ sp.map toM, o.start = s.start ∧ o.stop ≤ s.stop) := by
+  obtain ⟨r, hr, h1, h2, h3, h4, h5⟩ := c06_merge_spec (sp.map toM) hs hne
+  refine ⟨r.map ofM, ?_, ?_⟩
+  · rw [c06_trans_mergeScopes, hr]
+  · rw [map_toM_ofM]; exact ⟨h1, h2, h3, h4, h5⟩
+
+example : SortedByStop (([⟨0, 1⟩, ⟨2, 3⟩, ⟨0, 5⟩] : List GScope).map toM) ∧
+    AllNonEmpty (([⟨0, 1⟩, ⟨2, 3⟩, ⟨0, 5⟩] : List GScope).map toM) := by
+  refine ⟨by unfold SortedByStop; decide, ?_⟩
+  intro s hs
+  simp only [List.map_cons, List.map_nil, List.mem_cons, List.not_mem_nil, or_false] at hs
+  rcases hs with rfl | rfl | rfl <;> (unfold Scope.NonEmpty toM; decide)
 
 /-- The source expressions and statements of `algz/trie.go` the model is written against
 (re-extracted by go/ast on every run into `Golib/Gen/FactsC06.lean`) are the ones the model
